@@ -20,7 +20,8 @@ class FnContract:
                  ensures_exc=(), modifies=(), loops=None, external=False, model=None, inline=False, result=None,
                  is_property=False, setter=False, note=None, lets=None, await_havoc=None, trusted_reason=None,
                  pure=False, emits=None, opaque_calls=(), findings=(), no_inv=False, defs=(), bounded=None, replay_seeds=None, call_ensures=None,
-                 call_modifies=None, ghosts=None, inline_calls=False):
+                 call_modifies=None, ghosts=None, inline_calls=False, fresh_result=False,
+                 allow_decorators=()):
         self.cset = cset
         self.key = key
         self.file = file
@@ -50,6 +51,8 @@ class FnContract:
         # weaker summary used at call sites instead of ensures/modifies (sound: callers learn less)
         self.call_ensures = None if call_ensures is None else [_lab(c, "ensures", i) for i, c in enumerate(call_ensures)]
         self.call_modifies = call_modifies
+        self.fresh_result = fresh_result        # the result must be a new object per call (no memoisation)
+        self.allow_decorators = list(allow_decorators)
         self.inline_calls = inline_calls        # verified on its own AND executed (not summarised) at call sites
         self.ghosts = dict(ghosts or {})        # universally quantified specification variables (name -> shape)
         self.bounded = bounded          # text of the bound if this function is only checked up to a bound
@@ -100,6 +103,7 @@ class ContractSet:
         self.mutants = []           # mutation catalogue
         self.native_setup = None
         self.opaque_info = {}       # opaque sort -> fn(I, concretizer, val, heap) -> dict of ghost facts for replay
+        self.only_verify = None     # when set: only these keys are verified in this set (others serve as contracts)
         self.havoc_hooks = {}       # (class, field) -> fn(I, obj): custom havoc of ghost fields
         self.replay = {}
 
